@@ -279,6 +279,40 @@ def occupancy(ctx, b, an):
         ok = 'offset_free' in txt or 'pathset' in repr(c.pc[-1:])
     ctx.check(ok, R, FID, 'an advance that changed the free offset or node updates the occupancy tables before returning true',
               '%d update_occupancy calls; gate %s' % (len(uo), [(show(x, an.names)[:80], o) for x, o in (uo[0].pc[-2:] if uo else [])]), ctx.where(b))
+    # ---- every time stamp written into an authority derives from the gated time (time_update_next), never from the time of the
+    #      last fixed position (time_update); occupancy offsets are free offset − node offset
+    ub = ctx.anchor(R, 'TrainDisp::update_occupancy')
+    if ub is not None:
+        eng = engine(ctx)
+        eng.all_paths.add(ub.fid)
+        uan = eng.analysis(ub)
+        for fn_b, fn_an in ((b, an), (ub, uan)):
+            if fn_an.exit_state is None:
+                ctx.unproved(R, fn_b.fid + '|stamps', 'not analysable', ctx.where(fn_b)); continue
+            n_st = 0
+            for bb, path, val, span in fn_an.stores_log:
+                if path[0] != ('obj', 2) or path[-1][0] != 'f' or path[-1][1] not in ('arrive_entry', 'arrive_exit', 'clear_entry', 'clear_exit'):
+                    continue
+                n_st += 1
+                leaves = []
+                for x in walk(val):
+                    if x[0] == 'pre' and x[1][0] == ('obj', 1) and len(x[1]) == 2:
+                        leaves.append(x[1][1][1])
+                    if x[0] == 'loopvar' and x[2][0] == ('obj', 1) and len(x[2]) == 2:
+                        leaves.append(x[2][1][1])
+                okv = 'time_update_next' in leaves and 'time_update' not in leaves
+                key = '%s|%s' % (fn_b.fid, path[-1][1])
+                ctx.check(okv, R, key, 'the %s stamp derives from the gated time (time_update_next), not from the time of the last fixed position' % path[-1][1],
+                          '%s = %s (reads self.%s)' % (path[-1][1], show(val, fn_an.names)[:160], sorted(set(leaves))), ctx.where(fn_b, span))
+            if fn_b is ub:
+                ctx.floor('authority time stamps written by update_occupancy', n_st, 3)
+        if uan.exit_state is not None:
+            for fld, which in (('offset_front', 'front'), ('offset_back', 'back')):
+                st = [(val, span) for bb, path, val, span in uan.stores_log if path[0] == ('obj', 2) and path[-1] == ('f', fld) and show(val) != 'INF']
+                ok = len(st) == 1 and st[0][0][0] == 'sub' and st[0][0][1] == ('pre', P('offset_free')) and \
+                    any(x[0] == 'pre' and x[1][:2] == P('disp_path') and x[1][-1] == ('f', 'offset') and ('disp_node_idx_' + which) in repr(x) for x in walk(st[0][0][2]))
+                ctx.check(ok, R, 'TrainDisp::update_occupancy|' + fld, 'the occupied extent recorded on the %s link is free offset − that node\'s offset' % which,
+                          '%s stores: %s' % (fld, [show(v, uan.names)[:120] for v, _ in st]), ctx.where(ub))
     rb = ctx.anchor(R, 'TrainDisp::rewind')
     if rb is None:
         return
